@@ -187,6 +187,8 @@ partial def loop (cfg : ParseCfg) (h : IO.FS.Stream) (acc : Array String) : IO U
     for v in processCase cfg c do IO.println v
     (← IO.getStdout).flush
     loop cfg h #[]
+  else if l.isEmpty then
+    loop cfg h acc        -- the harness starts a crash report on a fresh line
   else
     loop cfg h (acc.push l)
 
